@@ -14,13 +14,17 @@ O == INSTANCE Obs
 
 Trace == ndJsonDeserialize(IOEnv.TRACE)
 
-VARIABLES l, obs
+VARIABLES l, obs, free   \* free: the execution was not scheduled by the harness (clock ticks race with the hooks)
 
-tvars == <<l, obs>>
+tvars == <<l, obs, free>>
+
+(* clock value of a publication: the harness clock at the hook when the harness controls the schedule (nothing
+   can tick in between); in a free-running execution the value the code itself read (ticks race with the hook) *)
+PubNow(ev, fr) == IF fr /\ "cnow" \in DOMAIN ev THEN ev.cnow ELSE ev.now
 
 Range(s) == {s[i] : i \in DOMAIN s}
 
-Apply(o, ev) ==
+Apply(o, ev, fr) ==
   CASE ev.op = "Reset"   -> O!ObsInit(Range(ev.disps) \X Range(ev.keys))
     [] ev.op = "Start"   -> O!OStart(o, ev.r, ev.k, ev.d, ev.m)
     [] ev.op = "Looked"  -> O!OLooked(o, ev.r, ev.e)
@@ -31,8 +35,8 @@ Apply(o, ev) ==
     [] ev.op = "Age"     -> O!OAge(o, ev.r, ev.age, ev.now)
     [] ev.op = "UpStart" -> O!OUpStart(o, ev.r)
     [] ev.op = "UpEnd"   -> O!OUpEnd(o, ev.r, ev.hasResp, ev.ttl)
-    [] ev.op = "Publish" -> O!OPublish(o, ev.e, ev.d, ev.k, ev.v, ev.now, ev.ttl)
-    [] ev.op = "Hfp"     -> O!OHfp(o, ev.e, ev.d, ev.k, ev.now, ev.eff)
+    [] ev.op = "Publish" -> O!OPublish(o, ev.e, ev.d, ev.k, ev.v, PubNow(ev, fr), ev.ttl)
+    [] ev.op = "Hfp"     -> O!OHfp(o, ev.e, ev.d, ev.k, PubNow(ev, fr), ev.eff)
     [] ev.op = "End"     -> O!OEnd(o, ev.r, ev.label, ev.err, ev.v)
     [] ev.op = "Removed" -> O!ORemoved(o, ev.d, ev.k)
     [] ev.op = "Purged"  -> O!OPurged(o, ev.d, ev.k, ev.ok)
@@ -43,11 +47,12 @@ Apply(o, ev) ==
     [] ev.op = "Kill"    -> O!OKill(o)
     [] ev.op = "Stuck"   -> O!OStuck(o, ev.r)
 
-Init == l = 1 /\ obs = O!ObsInit({})
+Init == l = 1 /\ obs = O!ObsInit({}) /\ free = FALSE
 
 Next ==
   /\ l <= Len(Trace)
-  /\ obs' = Apply(obs, Trace[l])
+  /\ free' = IF Trace[l].op = "Reset" THEN ("free" \in DOMAIN Trace[l] /\ Trace[l].free) ELSE free
+  /\ obs' = Apply(obs, Trace[l], free')
   /\ l' = l + 1
 
 Spec == Init /\ [][Next]_tvars
